@@ -7,12 +7,49 @@ _installed = [False]
 REG = {'controller': None, 'ui_state': None, 'probe': None}
 
 
+N = {'read': 0, 'fwd': 0, 'unp': 0, 'rej': 0}
+INPUT = {'lines': (), 'pos': 0}
+
+
+def set_input(f, text):
+    """make the stream's readline() observable: ghost input cells and the read counter"""
+    lines = text.splitlines(True)
+    INPUT['lines'] = tuple(lines)
+    INPUT['pos'] = 0
+    orig = f.readline
+    def readline(*a):
+        r = orig(*a)
+        if r != '':
+            EXT.append((7, r))
+            INPUT['pos'] += 1
+            N['read'] += 1
+        return r
+    f.readline = readline
+
+
 def install():
     if _installed[0]:
         return
     _installed[0] = True
-    from core.output import stream
+    from core.output import stream, output
     from core.wl import message
+    from core import connection_manager
+    orig_unp = output.Output.unprocessed
+    def unprocessed(self, *msg):
+        EXT.append((8, ' '.join(str(m) for m in msg)))
+        N['unp'] += 1
+        return orig_unp(self, *msg)
+    output.Output.unprocessed = unprocessed
+    orig_msg = connection_manager.ConnectionManager.message
+    def cm_message(self, connection_id, message):
+        EXT.append((3, connection_id))
+        N['fwd'] += 1
+        try:
+            return orig_msg(self, connection_id, message)
+        except RuntimeError:
+            N['rej'] += 1
+            raise
+    connection_manager.ConnectionManager.message = cm_message
     orig_write = stream.Base.write
     def write(self, thing):
         TRACE.append({'stream': self, 'text': str(thing), 'kind': 0, 'msg': None})
@@ -35,6 +72,8 @@ def reset():
     del SHOWN[:]
     del UI[:]
     del EXT[:]
+    N.update({'read': 0, 'fwd': 0, 'unp': 0, 'rej': 0})
+    INPUT.update({'lines': (), 'pos': 0})
     REG['controller'] = None
     REG['ui_state'] = None
     REG['probe'] = None
@@ -48,6 +87,8 @@ def accessors():
         'out_msg': lambda: tuple(e['msg'] for e in TRACE),
         'shown': lambda: tuple(m for m, _ in SHOWN),
         'shown_at': lambda: tuple(i for _, i in SHOWN),
+        'n_read': lambda: N['read'], 'n_fwd': lambda: N['fwd'], 'n_unp': lambda: N['unp'], 'n_rej': lambda: N['rej'],
+        'input_lines': lambda: INPUT['lines'], 'input_pos': lambda: INPUT['pos'],
         'probe': lambda: REG['probe'],
         'controller': lambda: REG['controller'],
         'ui_state': lambda: REG['ui_state'],
